@@ -5,6 +5,7 @@ import (
 	"encoding/json"
 	"errors"
 	"fmt"
+	"strings"
 	"unicode/utf8"
 
 	redact "github.com/cockroachdb/redact"
@@ -46,6 +47,14 @@ func init() {
 		var cs struct{ V, W, D int }
 		json.Unmarshal(raw, &cs)
 		return c11Join(cs.V, cs.W, cs.D)
+	}
+	replayers["C11/after-panic"] = func(c *Ctx, raw json.RawMessage) string {
+		var cs struct {
+			Verb          string
+			Method, Shape int
+		}
+		json.Unmarshal(raw, &cs)
+		return c11AfterPanic(cs.Verb, cs.Method, cs.Shape)
 	}
 	replayers["C11/panics"] = func(c *Ctx, raw json.RawMessage) string {
 		var cs panicCase
@@ -427,6 +436,77 @@ func c11Panic(cs panicCase) string {
 	return ""
 }
 
+type okStr struct{}
+
+func (okStr) String() string { return "OK" }
+
+type c11Trio struct {
+	A interface{}
+	M interface{}
+	B interface{}
+	C float64
+}
+
+// c11AfterPanic: an operand in which one element's method panics must print, around the
+// report, exactly what it prints when that element is well-behaved.
+func c11AfterPanic(verb string, method, shape int) string {
+	var bad interface{}
+	switch method {
+	case 0:
+		bad = panSafeFormat{panScript{nil, 0, 0}}
+	case 1:
+		bad = panFormat{panScript{nil, 0, 0}}
+	case 2:
+		bad = panString{0}
+	case 3:
+		bad = panError{0}
+	case 4:
+		bad = panGoString{0}
+	case 5:
+		bad = panSafeMessage{0}
+	}
+	mk := func(mid interface{}) interface{} {
+		switch shape {
+		case 0:
+			return []interface{}{"hello", mid, "world", 3.14159, 0}
+		case 1:
+			return c11Trio{"hello", mid, "world", 3.14159}
+		default:
+			return map[string]interface{}{"a": "hello", "b": mid, "c": "world", "d": 3.14159}
+		}
+	}
+	var withBad, withOK, okAlone redact.RedactableString
+	if pv, pan := recoverTo(func() {
+		withBad = redact.Sprintf(verb, mk(bad))
+		withOK = redact.Sprintf(verb, mk(okStr{}))
+		okAlone = redact.Sprintf(verb, okStr{})
+	}); pan {
+		return fmt.Sprintf("Sprintf(%q, container with a panicking %s method) panics: %v", verb, panMethodNames[method], pv)
+	}
+	if !strings.Contains(string(withBad), "(PANIC=") {
+		return "" // the method is not called under this verb
+	}
+	a, b := string(withBad), string(withOK)
+	p := 0
+	for p < len(a) && p < len(b) && a[p] == b[p] {
+		p++
+	}
+	sfx := 0
+	for sfx < len(a)-p && sfx < len(b)-p && a[len(a)-1-sfx] == b[len(b)-1-sfx] {
+		sfx++
+	}
+	midOK := b[p : len(b)-sfx]
+	// the well-behaved element renders as okAlone (inside the container %#v prints its Go syntax)
+	want := string(okAlone)
+	if shape == 1 && strings.Contains(verb, "#") {
+		return ""
+	}
+	if !strings.Contains(want, midOK) {
+		return fmt.Sprintf("Sprintf(%q): with a panicking %s method the operand prints %q, with a well-behaved element %q: they differ beyond the element itself (%q vs the element's own rendering %q): text before/after the panic report is not intact", verb, panMethodNames[method], a, b, midOK, want)
+	}
+	return ""
+}
+
 func checkC11(c *Ctx) {
 	// (a) runes
 	var runes []rune
@@ -594,6 +674,16 @@ func checkC11(c *Ctx) {
 		recoverTo(func() {
 			w.SeenS(fmt.Sprint(cases[i].Method, cases[i].Payload, cases[i].At, cases[i].Nest, cases[i].Verb, len(cases[i].Ops)))
 		})
+	})
+	// (g) text AFTER a caught panic inside a container keeps the directive's width/precision/flags
+	afterVerbs := []string{"%v", "%.2v", "%8v", "%-6.1v", "%+v", "%#v", "%08.3v", "%x", "% x", "%q", "%6.2s", "%.0v"}
+	c.Section("C11/after-panic", map[string]interface{}{"verbs": afterVerbs, "methods": panMethodNames, "shapes": "[]interface{}{a, PANICKER, b, c}, struct, map value; the rest of the operand must print exactly as with a well-behaved element in the panicker's place"}, len(afterVerbs)*6*3, func(i int, w *Worker) {
+		vi, m, sh := i%len(afterVerbs), (i/len(afterVerbs))%6, i/len(afterVerbs)/6
+		w.Eval()
+		if d := c11AfterPanic(afterVerbs[vi], m, sh); d != "" {
+			w.Fail("after-panic", map[string]interface{}{"Verb": afterVerbs[vi], "Method": m, "Shape": sh}, d)
+		}
+		w.Seen(uint64(i))
 	})
 	c.Assume("outside the claim, as documented: Grow(<0), memory exhaustion, a nil io.Writer, a nil function passed to Sprintfn, a nil *StringBuilder receiver")
 }
